@@ -132,7 +132,7 @@ Definition dirname (p:str) : str :=
 Definition nrm (cwd file : str) : str := normpath (abspath cwd file).
 
 (* ---------------------------------------------------------------- file system oracle *)
-Inductive fent := FObjs (l:list obj) | FBad.     (* parsed objects | the parser refuses the text *)
+Inductive fent := FObjs (l:list obj) | FBad (line:nat).   (* parsed objects | the parser refuses the text (error line) *)
 Definition fsys := list (str * fent).
 
 Definition k_cycle : str := s_ "IncludeCycle".
@@ -147,7 +147,7 @@ Fixpoint fs_get (fs:fsys) (p:str) : res (list obj) :=
   match fs with
   | [] => Crash c_nofile
   | (k, v) :: r =>
-      if eqs k p then match v with FObjs l => Ok l | FBad => UErr k_parse [] 0 end
+      if eqs k p then match v with FObjs l => Ok l | FBad ln => UErr k_parse [] ln end
       else fs_get r p
   end.
 
